@@ -370,6 +370,56 @@ func c17App(c *vc.Ctx, idx int) {
 			c.Nontrivial("query version=%d schnorr=%v net=%s", ver, schn, own.Name)
 		}
 	}
+	// EVM address strings that do not denote 20 bytes: whatever the query handed out for them could never be accepted by
+	// deposit checking (which takes exactly 20 bytes); other spellings of 20 bytes may be refused, but an answer must verify
+	for k := 0; k < c.Pick(6, 30); k++ {
+		evm := make([]byte, 21)
+		r.Read(evm)
+		hx := hex.EncodeToString(evm)
+		type q struct {
+			s    string
+			evm  []byte // nil: the string denotes no 20-byte address
+			kind string
+		}
+		qs := []q{
+			{"0x" + hx[:38], nil, "19 bytes"}, {"0x" + hx, nil, "21 bytes"}, {"", nil, "empty"}, {"0x", nil, "prefix only"},
+			{"0x" + hx[:39], nil, "odd number of digits"}, {"0xzz" + hx[:38], nil, "not hexadecimal"}, {"0x" + hx[:40] + " ", nil, "trailing blank"},
+			{hx[:40], evm[:20], "no prefix"}, {"0X" + hx[:40], evm[:20], "capital prefix"}, {"0x" + strings.ToUpper(hx[:40]), evm[:20], "capital digits"},
+		}
+		for _, it := range qs {
+			for ver := uint32(0); ver < 2; ver++ {
+				if ver == 1 && schn {
+					continue
+				}
+				c.Eval(1)
+				var resp bitcointypes.QueryDepositAddressResponse
+				err := ch.Node().Query("/goat.bitcoin.v1.Query/DepositAddress", &bitcointypes.QueryDepositAddress{Version: ver, EvmAddress: it.s}, &resp)
+				c.Nontrivial("query evm-string=%s version=%d answered=%v", it.kind, ver, err == nil)
+				if err != nil {
+					c.Count("malformed_evm_strings_refused_by_the_query", 1)
+					continue
+				}
+				if it.evm == nil {
+					c.Violation("deposit address handed out for a string that is no 20-byte EVM address", fmt.Sprintf("%q (%s), version %d -> %s", it.s, it.kind, ver, resp.Address), nil)
+					continue
+				}
+				script, _, derr := scriptOfAddress(resp.Address)
+				if derr != nil {
+					c.Violation("deposit address from the query is not an address of the configured network", fmt.Sprintf("%s: %v", resp.Address, derr), nil)
+					continue
+				}
+				var verr error
+				if ver == 0 {
+					verr = bitcointypes.VerifyDespositScriptV0(w.BtcKey, it.evm, script)
+				} else {
+					verr = bitcointypes.VerifyDespositScriptV1(w.BtcKey, []byte("GTT0"), it.evm, script, resp.OpReturnScript)
+				}
+				if verr != nil {
+					c.Violation("deposit verification refuses the address the query hands out", fmt.Sprintf("%q (%s) version %d -> %s: %v", it.s, it.kind, ver, resp.Address, verr), nil)
+				}
+			}
+		}
+	}
 	// withdrawals: standard own-network addresses end pending, everything else is refunded
 	cases := c17AddrCases(c.Seed, 1000+idx, 2, own)
 	id := uint64(0)
